@@ -158,7 +158,7 @@ class Recorder:
         self.failed_sets = {}  # feature sets whose evaluation killed the interpreter in an earlier attempt: these (and supersets) are not run again
 
     def subsumed(self, check, f):
-        return any(set(g) <= set(f) for g in self.failed_sets.get(check, ()))
+        return any(set(g) <= set(f) for g in self.failed_sets.get(check, ())) or any(set(g) <= set(f) for g in self.failed_sets.get("*", ()))
 
     def ok(self, check, nontrivial=None, sample=None):
         self.evals[check] = self.evals.get(check, 0) + 1
@@ -632,7 +632,14 @@ def isolated(job, scratch):
                     case, confirmed = c, True
                     break
         check, f, inp, prefix = _case_record(fmt, seed, case)
-        pre_failed.setdefault(check, []).append(list(f))
+        # a dying interpreter is a property of the reader, not of load/iterload/list: the class keeps the reader-level features only, and
+        # every case of every check of this format that contains them is skipped from now on
+        rf = [x for x in f if x in ("stride>1", "atom_indices")]
+        if rf:
+            pre_failed.setdefault("*", []).append(rf)
+            f, prefix = tuple(rf), "read"
+        else:
+            pre_failed.setdefault(check, []).append(list(f))
         msg = [ln for ln in p.stderr.splitlines() if ln.strip() and "WARNING" not in ln][-1:] or [""]
         if p.returncode == -999:
             crashes.append(dict(check=check, clause="hang", prefix=prefix, feats=tuple(f), fmt=fmt, tail="timeout",
